@@ -32,6 +32,7 @@ use nom::bytes::complete::take;
 use nom::error::{Error as NomError, ErrorKind};
 use nom::number::complete::{be_f64, be_i32, be_u8, be_u16, be_u32, be_u64};
 use std::borrow::Cow;
+use std::cell::Cell;
 use std::collections::{BTreeMap, HashMap};
 use std::io::Read;
 use std::str;
@@ -41,6 +42,36 @@ const MAX_LIST_SIZE: usize = 10_000_000;
 const MAX_TUPLE_SIZE: usize = 10_000_000;
 const MAX_MAP_SIZE: usize = 1_000_000;
 const MAX_BINARY_SIZE: usize = 100_000_000;
+/// Containers nested deeper than this are rejected. The parsers recurse once per nesting
+/// level, so without a limit a few kilobytes of nested one-element tuples overflow the stack
+/// of the decoding thread (about 2 300 levels on a 2 MiB stack in an optimised build).
+const MAX_NESTING_DEPTH: usize = 256;
+
+thread_local! {
+    static NESTING_DEPTH: Cell<usize> = const { Cell::new(0) };
+}
+
+/// Counts one level of parser recursion on the current thread for as long as it lives.
+struct NestingGuard;
+
+impl NestingGuard {
+    fn enter() -> Option<Self> {
+        NESTING_DEPTH.with(|depth| {
+            if depth.get() >= MAX_NESTING_DEPTH {
+                None
+            } else {
+                depth.set(depth.get() + 1);
+                Some(NestingGuard)
+            }
+        })
+    }
+}
+
+impl Drop for NestingGuard {
+    fn drop(&mut self) {
+        NESTING_DEPTH.with(|depth| depth.set(depth.get() - 1));
+    }
+}
 
 type NomResult<'a, T> = IResult<&'a [u8], T, NomError<&'a [u8]>>;
 
@@ -263,6 +294,8 @@ fn parse_versioned_term_with_cache<'a>(
 }
 
 fn parse_term<'a>(input: &'a [u8], cache: &AtomCache) -> NomResult<'a, OwnedTerm> {
+    let _nesting = NestingGuard::enter()
+        .ok_or_else(|| nom::Err::Failure(NomError::new(input, ErrorKind::TooLarge)))?;
     let (input, tag) = be_u8(input)?;
     parse_term_from_tag(input, tag, cache)
 }
@@ -971,6 +1004,8 @@ fn parse_term_borrowed<'a>(
     ctx: &mut ParsingContext,
 ) -> NomResult<'a, BorrowedTerm<'a>> {
     ctx.byte_offset = original_len - input.len();
+    let _nesting = NestingGuard::enter()
+        .ok_or_else(|| nom::Err::Failure(NomError::new(input, ErrorKind::TooLarge)))?;
     let (input, tag) = be_u8(input)?;
 
     match tag {
